@@ -155,5 +155,11 @@ Theorem source_box_pin :
   Gen_attr.gen_box_pin_suffix = Some box_pin_suffix
   /\ Gen_attr.gen_path_to_string_idents = true
   /\ Gen_attr.gen_tail_async_block = true
-  /\ Gen_attr.gen_tail_helper_call = true.
+  /\ Gen_attr.gen_tail_helper_call = true
+  /\ Gen_attr.gen_detection_ignores_return_type = true.
 Proof. repeat split; reflexivity. Qed.
+
+(** the declared return type plays no role *)
+Lemma kind_of_fn_ret_irrelevant suffix callee ret ret' k :
+  kind_of_fn suffix callee ret k = kind_of_fn suffix callee ret' k.
+Proof. reflexivity. Qed.
